@@ -10,6 +10,7 @@ import (
 	//"os"
 
 	"github.com/evolbioinfo/gotree/io"
+	"github.com/evolbioinfo/gotree/verifhook"
 )
 
 // Given a set of tip names, this function
@@ -814,6 +815,7 @@ func Compare(refTree *Tree, compTrees <-chan Trees, tips, comparetreeidentical b
 		wg.Add(1)
 		go func(cpu int) {
 			for treeV := range compTrees {
+				verifhook.Point("compare.recv", cpu, treeV.Id)
 				total2 := 0
 				common := 0
 				var inerr error
@@ -848,6 +850,7 @@ func Compare(refTree *Tree, compTrees <-chan Trees, tips, comparetreeidentical b
 						}
 					}
 				}
+				verifhook.Point("compare.send", cpu, treeV.Id)
 				stats <- BipartitionStats{
 					treeV.Id,
 					total - common,
@@ -916,6 +919,7 @@ func CompareWeighted(refTree *Tree, compTrees <-chan Trees, tips, comparetreeide
 		wg.Add(1)
 		go func(cpu int) {
 			for treeV := range compTrees {
+				verifhook.Point("compareweighted.recv", cpu, treeV.Id)
 				var inerr error
 				inerr = treeV.Err
 
@@ -931,6 +935,7 @@ func CompareWeighted(refTree *Tree, compTrees <-chan Trees, tips, comparetreeide
 
 						// Edge index of compared tree
 						compEdges = treeV.Tree.Edges()
+						verifhook.Point("compareweighted.edges", cpu, treeV.Id)
 						compIndex := NewEdgeIndex(uint64(len(compEdges)*2), 0.75)
 						for i, e := range compEdges {
 							compIndex.PutEdgeValue(e, i, e.Length())
@@ -984,6 +989,7 @@ func CompareWeighted(refTree *Tree, compTrees <-chan Trees, tips, comparetreeide
 					}
 				}
 
+				verifhook.Point("compareweighted.send", cpu, treeV.Id)
 				stats <- WeightedBipartitionStats{
 					treeV.Id,
 					Ref,
